@@ -54,7 +54,7 @@ func (np *Processor) processNewEpoch(ev netmapEvent.NewEpoch) {
 		return bytes.Equal(i1.PublicKey(), i2.PublicKey())
 	})
 
-	if mapChanged {
+	if mapChanged && np.alphabetState.IsAlphabet() {
 		l.Debug("updating placements in Container contract...")
 		err = np.updatePlacementInContract(*networkMap, epoch, l)
 		if err != nil {
